@@ -73,7 +73,7 @@ CLAIMED["C01"] = (
 CLAIMED["C02"] = (
     "TLC-enumerated boundary matrix (MC_Lang b_* slots: ledger field x expression shape x boundary value, exact values by BigInt.tla) run through the whole pipeline + TLC trace validation against DenoteTx with field ranges (Trace_Lang)",
     "For every numeric ledger field and every expression shape producing it, the parameter takes each boundary value (0, +-1, +-2^31.., +-2^63, +-2^64, i128 extremes); TLC computes the exact value and whether the field can hold it, and validates that the real pipeline "
-    "emits exactly that value or fails; balanced templates (change = input - send - fees, with mint / burn) are included so that value preservation follows from field equality.",
+    "emits exactly that value or fails; balanced templates (change = input - send - fees, with mint / burn) are included so that value preservation follows from field equality; every case runs a second time with its integer arguments arriving as JSON number literals through the service's own coercion.",
     "Trusts TLC/Json/BigInt.tla (self-checked); dev profile (overflow checks on); three recorded findings for output amounts pinned by the baseline suite.",
     "DESIGN.md section 5, C02")
 
@@ -131,11 +131,11 @@ CLAIMED["C16"] = (
 CLAIMED["C17"] = (
     "TLC-enumerated identifier spellings and usage patterns (MC_Tii) built by the real tx3c binary (`build --emit tii`), interface read back and related to the decoded embedded IR + TLC trace validation of the name relation (Trace_Build / Tii.tla)",
     "For every spelling of parameter, party and environment names (lower, Capitalised, UPPER, mixed), used or unused by the body, with unused / case-colliding parameters, a second party or a constructor policy, TLC validates on the artifacts of the real compiler CLI: "
-    "every key the embedded IR requires is declared under exactly that spelling, declared names do not collapse, the IR requires exactly as many keys as the body uses names, and the embedded IR equals the in-process lowering.",
+    "every key the embedded IR requires is declared under exactly that spelling, declared names do not collapse, the IR requires exactly as many keys as the body uses names, the embedded IR equals the in-process lowering, and a client that sends everything the file declares through parse_resolve_request gets every required key served.",
     "Trusts TLC/Json, the tx3c build from /repo's working tree, the driver's to_lowercase for the collapse check; one recorded finding (parameters differing only in case).",
     "DESIGN.md section 5, C17")
 CLAIMED["C18"] = (
-    "history monitor over build artifacts (Build.tla / Trace_Build): every example, spelling program (MC_Tii) and generated core program (MC_Lang) lowered and encoded 20x in one process, in 3 more processes and built 3x by the real tx3c; TLC validates that all digests of one artifact agree",
+    "history monitor over build artifacts (Build.tla / Trace_Build): every example, spelling program (MC_Tii), generated core program (MC_Lang) and mutant (MC_Mutants; refused or built is an artifact too) lowered and encoded 20x in one process, in 3 more processes, on one Workspace before and after apply_args, and built 3x by the real tx3c; TLC validates that all digests of one artifact agree",
     "TLC checks on the recorded history that every Built event of an artifact (TIR bytes of each tx, the .tii file) of one source carries one digest, across repetitions in a process, across fresh driver processes and across runs of the tx3c binary.",
     "Detection of an order leak is probabilistic per program (26 draws) and near certain over the corpus; digests by Blake2b (driver) / sha256 (orchestrator).",
     "DESIGN.md section 5, C18")
